@@ -66,6 +66,9 @@ def tamperings(k, others, rng):
         for j in range(n):
             if i < j:
                 t = k.copy(); t.chains[i], t.chains[j] = t.chains[j], t.chains[i]; yield 'rights reordered (swap chains %d,%d)' % (i, j), t
+    for i in range(n + 1):
+        t = k.copy(); t.chains.insert(i, (b'', [])); yield 'nameless right without secret added', t
+        t = k.copy(); t.chains.insert(i, (b'\x09', [])); yield 'named right without secret added', t
     for i in range(n):
         t = k.copy(); del t.chains[i]; yield 'right removed', t
         t = k.copy(); t.chains.append(k.chains[i]); yield 'right duplicated (appended)', t
@@ -109,6 +112,11 @@ def tamperings(k, others, rng):
     t = k.copy(); t.sig = b''; yield 'signature stripped', t
     if k.sig:
         t = k.copy(); t.sig = bytes([k.sig[0] ^ 1]) + k.sig[1:]; yield 'signature altered', t
+        for (a, b2, m) in ((0, 1, 1), (3, 17, 0x80), (30, 31, 0x55)):
+            sg = bytearray(k.sig); sg[a] ^= m; sg[b2] ^= m; t = k.copy(); t.sig = bytes(sg); yield 'signature altered (two bytes, same mask)', t
+        sg = bytearray(k.sig); sg[2], sg[9] = sg[9], sg[2]; t = k.copy(); t.sig = bytes(sg)
+        if t.sig != k.sig: yield 'signature altered (two bytes swapped)', t
+        sg = bytearray(k.sig); sg[:] = sg[::-1]; t = k.copy(); t.sig = bytes(sg); yield 'signature reversed', t
         t = k.copy(); t.sig = k.sig[:-1] + bytes([k.sig[-1] ^ 0x80]); yield 'signature altered (last byte)', t
     t = k.copy(); t.id = [bytes([k.id[0][0] ^ 1]) + k.id[0][1:]] + k.id[1:]; yield 'identifier altered', t
     t = k.copy(); t.id = k.id[::-1]; yield 'identifier markers reversed', t
@@ -160,7 +168,7 @@ def run(ctx):
         # honest controls: every issued key must be accepted
         for ki, b in enumerate(keys):
             r = ask(f'TRY {b.hex()} {ki % 2}')
-            ctx.ob('correspondence', f'round {rd}: issued key #{ki} is accepted', r == 'ACCEPT', r) if r != 'ACCEPT' else None
+            ctx.ob('correspondence', f'round {rd}: issued key #{ki} is accepted', r.startswith('ACCEPT'), r) if not r.startswith('ACCEPT') else None
         # model side (extracted Coq: r_usk, mk_body, mac_stream, reframing_of), one line per case
         mlines = [f'{keys[ki].hex()} {tb.hex()}' for ki, what, t, tb in cases]
         mout = vf.run_sharded(vf.OCAML + '/mdriver', [[l] for l in mlines], timeout=1800)
@@ -183,8 +191,14 @@ def run(ctx):
                 # model prediction: accepted iff the stream equals that of the issued key it was derived from (same id, same signature)
                 if mo.startswith('P1') and ' S1 ' in mo and ' I1 ' in mo and mo.endswith('G1'): dis.append((what, r, mo))
                 continue
-            if r == 'ACCEPT':
-                if is_issued: accepted_issued += 1; continue
+            if r.startswith('ACCEPT'):
+                if is_issued:
+                    # the bytes differ from the issued ones but describe the issued key (e.g. an empty chain, which the reader
+                    # drops): fine ONLY IF the reader really normalised them away; a parsed key that re-serializes to the
+                    # tampered bytes IS the tampered arrangement, and it was accepted
+                    if tb != issued_bodies[t.body()].build() and 'same=1' in r:
+                        vf.violation(ctx, f'refresh accepted a key that is not an issued one ({what}): the reader kept the added / altered part, the signature does not cover it', {'issued_usk_hex': keys[ki].hex(), 'tampered_usk_hex': tb.hex(), 'msk_hex': msk, 'tampering': what, 'impl': r})
+                    accepted_issued += 1; continue
                 if same_stream_issued:
                     reframed += 1
                     if known:
